@@ -401,6 +401,27 @@ def tolerances_and_limits(chk, exe, rng, broken, reps):
                     chk.violation('tolerance-order', '%s %s: %s: the result is off by %.3e / %.3e (with both at 1e-10: %.3e)' % (kind, typ, order, e[0], e[1], max(errs[-1][1])), sc.lines[:sc.i_apply + 1])
                     return
                 two.append([o[i] for idx in sc.i_vals.values() for i in idx] + [o[sc.i_apply]])
+            # the mirror: "both tolerances must be met" (vnacal_new(3)) — a tight error-term tolerance holds whatever the parameter
+            # tolerance is: the corrected device is right to a small multiple of it
+            if kind != 'trl' or typ not in ('T8', 'U8', 'TE10', 'UE10'):
+                for lp in (1e-2, 1e-3):
+                    sc = build(random.Random(seed), kind, typ, 1, 'm', ptol=lp, etol=1e-11, et_first=rng.random() < 0.5)
+                    o, rc, err = vlib.run_lines(exe, sc.lines, timeout=120)
+                    chk.evaluations += 1
+                    if rc != 0 or len(o) != len(sc.lines):
+                        chk.violation('tolerance-crash', '%s %s with tolerances %.0e / 1e-11: crash or no return:\n%s' % (kind, typ, lp, err[-800:]), sc.lines)
+                        return
+                    e = errors(sc, o)
+                    if e is None:
+                        chk.count('tolerance_et_unsolved')
+                        continue
+                    if e[1] > 3e-8:
+                        # (a recorded finding, see known_findings.json: the stage goes on)
+                        chk.violation('tolerance-et', 'the error-term tolerance is not tested by the iterated solve: %s %s, parameter tolerance %.0e, error-term tolerance 1e-11: the corrected device is off by %.3e (parameters by %.3e; with both at 1e-10: %.3e)' % (
+                            kind, typ, lp, e[1], e[0], max(errs[-1][1])), sc.lines[:sc.i_apply + 1])
+                        chk.count('tolerance_et_not_met')
+                        break
+                    chk.count('tolerance_et_ok')
             if two[0] != two[1]:
                 chk.violation('tolerance-commute', '%s %s: setting the two tolerances (1e-10, %.0e) in the other order changes the result' % (kind, typ, loose), sc.lines[:sc.i_apply + 1])
                 return
